@@ -542,6 +542,7 @@ INVARIANT RefuseNotCommand
 CHECK_DEADLOCK FALSE
 """ % REL)
     v = tlc.validate_traces(wd, 'CoilTrace', 'Trace.cfg', alltr)
+    tlc.finish_diagnosis(wd, 'CoilTrace', 'Trace.cfg', alltr, v)
     ctx.add_trace_verdict('CoilTrace', v, len(alltr))
     ctx.sample({'kind': 'coil-api-trace', 'cfg': traces[0]['cfg'], 'trace': traces[0]['ev'][:8]})
     if ftraces:
